@@ -200,7 +200,7 @@ func isSessionPtr(v ssa.Value) bool {
 }
 
 func checkSessionTypestate(p *Program, r *Report, rule string) {
-	r.Rule(rule, "typestate (E11 producers, CFG consumers)", "conditionally assigned session fields are read only under their validity discriminator", 12)
+	r.Rule(rule, "typestate (E11 producers, CFG consumers)", "conditionally assigned session fields are read only under their validity discriminator", 6)
 	fns := p.FuncsOf(triePath)
 	sessionTable, notes := inferSessionTable(p, fns)
 	for _, n := range notes {
@@ -316,6 +316,32 @@ func checkSessionTypestate(p *Program, r *Report, rule string) {
 			if nAssigned == 0 {
 				bad = append(bad, "no path of the summary assigns the field")
 			}
+			// a stored prefix is a bit string with a trailing length byte: where the producer also sets
+			// the step length on a path that assigns the prefix, that length is bitstr.Len of the prefix
+			// just assigned (the only decoder of the format), not a count of its bytes
+			if sf.disc != "size" {
+				var lenBad []string
+				for _, fp := range ps {
+					if fp.panics {
+						continue
+					}
+					fin := fp.finalEffects()
+					pv, okP := fin["QR."+sf.field]
+					lv, okL := fin["QR."+curSess.stepLen]
+					if !okP || !okL || lv == "0" {
+						continue
+					}
+					// bitstr.Len is expanded by E6 (8*len - 16 + popcount(last byte)): whatever its form, the
+					// length must read the CONTENT of the prefix — the value of its marker byte decides it
+					readsContent := strings.Contains(lv, "idx(QR."+sf.field+",") || strings.Contains(lv, "idx("+pv+",") || (strings.Contains(lv, "bitstr.Len(") && strings.Contains(lv, sf.field))
+					if !readsContent {
+						lenBad = append(lenBad, "on the path ["+abbreviate(fp.pcKey())+"] the length is "+abbreviate(lv))
+					}
+				}
+				if len(lenBad) > 0 {
+					bad = append(bad, "the bit length of the stored prefix is computed without reading its marker byte ("+strings.Join(firstN(dedupStrings(sortStr(lenBad)), 2), "; ")+"): the trailing marker byte is not payload")
+				}
+			}
 			r.Check(len(bad) == 0, construct, p.Pos(f.Pos()), fmt.Sprintf("%d paths, %d assign the field, discriminator agrees on each", len(ps), nAssigned), strings.Join(firstN(dedupStrings(sortStr(bad)), 3), "; "))
 		}
 		// ---- consumer side
@@ -351,18 +377,31 @@ func discText(sf sessField) string {
 // sizeIsShort: the final value of QR.to on the path is (final QR.from) + Slim.ShortSize.
 func sizeIsShort(fp fpath, to string) bool { return sizeIsShortTerm(to) }
 
+// storedBefore: a store to the same session field precedes the load on every
+// path (same block earlier, or in a dominating block): the producer reads back
+// what it has just assigned.
 func storedBefore(ld *ssa.UnOp, field string) bool {
-	for _, in := range ld.Block().Instrs {
-		if in == ld {
-			return false
+	found := false
+	instrsOf(ld.Parent(), func(b *ssa.BasicBlock, in ssa.Instruction) {
+		st, ok := in.(*ssa.Store)
+		if !ok || found {
+			return
 		}
-		if st, ok := in.(*ssa.Store); ok {
-			if _, fv, fa := fieldOfAddr(st.Addr); fa != nil && fv.Name() == field {
-				return true
+		_, fv, fa := fieldOfAddr(st.Addr)
+		if fa == nil || fv.Name() != field || !isSessionPtr(fa.X) {
+			return
+		}
+		if b == ld.Block() {
+			if instrIndex(st) < instrIndex(ld) {
+				found = true
 			}
+			return
 		}
-	}
-	return false
+		if b.Dominates(ld.Block()) {
+			found = true
+		}
+	})
+	return found
 }
 
 // underDiscriminatorDeep: the block is under the discriminator in its own
